@@ -194,10 +194,10 @@ PROPS = {
     ),
     "C13": dict(
         theorems=["HC.C13.append_events", "HC.C13.append_empty", "HC.C13.append_refused", "HC.C13.get_events", "HC.C13.clear_events",
-                  "HC.C13.apply_events", "HC.C13.refused_events"],
+                  "HC.C13.apply_events", "HC.C13.refused_events", "HC.C13.apply_announces", "HC.C13.append_announces"],
         bridge_modules=["HC.Bridge.Stores"], bridging=["HC.Bridge.Stores.event_queue"],
         runs=_c13_runs,
-        partial="fan-out to several subscribers is a property of async-broadcast (modelled: every attached subscriber receives the operation's event list); the union-of-announced-ranges oracle is evaluated by the harness",
+        partial="the announced ranges are exactly the blocks that became available (apply_announces, append_announces: after an accepted proof / a successful append a block is held iff it was held before or a have event of that call covers it); fan-out to several subscribers is a property of async-broadcast (modelled: every attached subscriber receives the operation's event list); the union-of-announced-ranges oracle is evaluated by the harness",
         rule="writer + replica with 0-3 subscribers each attached at random points and drained after every call: appends, empty batches, clears, reads of held/missing/out-of-range indices, accepted proofs (block/upgrade/both), refused and failing proofs, appends on a read-only core, and every mutating call / proof application replayed once per storage operation with that operation failing (a failed call announces nothing); per-call events compared with the list-model oracle and with the Lean model; union of announced ranges = blocks that became available",
         trusted=LOG_TRUSTED + ["async-broadcast (dependency) is modelled as per-subscriber queues below the capacity of 32"],
         assumptions=["fewer than 32 undrained events"],
